@@ -143,6 +143,11 @@ class Ctx:
         self._case = case
         self._case_findings = []
         self.evaluations += 1
+        if "vf.gen.types" in sys.modules:  # equivalent spellings of the generated hints (DESIGN 3.1b); 0 = canonical
+            sp = case.get("spell", 0) if isinstance(case, dict) else 0
+            sys.modules["vf.gen.types"].set_spell(sp)
+            if sp:
+                self.classes["spelling:non-canonical"] += 1
 
     def mark_nontrivial(self, key=None):
         h = stable_hash(self._case if key is None else key)
@@ -222,6 +227,14 @@ def hyp_settings(max_examples, shrink=True, stateful_steps=None):
     if stateful_steps is not None:
         kw["stateful_step_count"] = stateful_steps
     return settings(**kw)
+
+
+def with_spellings(strategy):
+    """every second case uses non-canonical but equivalent spellings of its type hints (list[int], Mapping, X | None, Annotated ...)"""
+    from hypothesis import strategies as st
+
+    return st.tuples(strategy, st.one_of(st.just(0), st.integers(1, 2**20))).map(
+        lambda t: {**t[0], "spell": t[1]} if isinstance(t[0], dict) and t[1] and "spell" not in t[0] else t[0])
 
 
 def run_given(ctx, strategy, body, max_examples, shrink=True):
